@@ -15,6 +15,7 @@ import (
 	"path/filepath"
 	"reflect"
 	"regexp"
+	"sort"
 	"strings"
 	"time"
 )
@@ -81,6 +82,24 @@ func RunInspections(layout Layout, runDir string, lineNormalization bool, useDSS
 	return inspectionMetadata, nil
 }
 
+// cleanArtifactPaths moves every artifact whose name is not a clean path to
+// its clean name. The names are handled in sorted order: when several of them
+// clean to the same name, the outcome must not depend on the iteration order
+// of the map.
+func cleanArtifactPaths(artifacts map[string]HashObj) {
+	var unclean []string
+	for k := range artifacts {
+		if path.Clean(k) != k {
+			unclean = append(unclean, k)
+		}
+	}
+	sort.Strings(unclean)
+	for _, k := range unclean {
+		artifacts[path.Clean(k)] = artifacts[k]
+		delete(artifacts, k)
+	}
+}
+
 // verifyMatchRule is a helper function to process artifact rules of
 // type MATCH. See VerifyArtifacts for more details.
 func verifyMatchRule(ruleData map[string]string,
@@ -114,18 +133,8 @@ func verifyMatchRule(ruleData map[string]string,
 	if ruleData["pattern"] != "" {
 		ruleData["pattern"] = path.Clean(ruleData["pattern"])
 	}
-	for k := range srcArtifacts {
-		if path.Clean(k) != k {
-			srcArtifacts[path.Clean(k)] = srcArtifacts[k]
-			delete(srcArtifacts, k)
-		}
-	}
-	for k := range dstArtifacts {
-		if path.Clean(k) != k {
-			dstArtifacts[path.Clean(k)] = dstArtifacts[k]
-			delete(dstArtifacts, k)
-		}
-	}
+	cleanArtifactPaths(srcArtifacts)
+	cleanArtifactPaths(dstArtifacts)
 
 	// Normalize optional source and destination prefixes, i.e. if
 	// there is a prefix, then add a trailing slash if not there yet
